@@ -1,9 +1,9 @@
 """C01 — print -> parse identity (XML, JSON, LYB)."""
 from checks import textcomp, rtcomp, rtxcomp, lybcomp, lybtree
 
-LEAN_TARGETS = ["LyModel.Props.C01", "LyModel.Props.C01Lyb"]
+LEAN_TARGETS = ["LyModel.Props.C01", "LyModel.Props.C01Lyb", "LyModel.Props.C01LybTree"]
 AUDIT = "Audit/C01.lean"
-GENERATED = ["XmlEsc", "JsonEsc", "Consts", "LybConsts"]
+GENERATED = ["XmlEsc", "JsonEsc", "Consts", "LybConsts", "LybTree"]
 ASSUMPTIONS = ["theorems cover the value-text layer (escaping/lexing of every string); the tree walk, with-defaults filtering and LYB framing are "
                "exercised as laws on the implementation over generated schemas and trees (api_rt), see DESIGN.md §5 C01"]
 TRUSTED = ["Python renderers in tools/checks/rtcomp.py as the independent XML / RFC 7951 JSON encoder"]
